@@ -84,10 +84,18 @@ theorem flushBlocks_key {c : Cache} {b : Block} (h : b ∈ flushBlocks c) : ∃ 
   obtain ⟨e, he, rfl⟩ := List.mem_map.mp hk
   exact ⟨e, he, rfl⟩
 
+theorem Shard.Clean_noteRead (s : Shard) (h : s.Clean) : s.noteRead.Clean := by
+  unfold Shard.noteRead
+  split
+  · exact ⟨h.noTomb, h.fileKeys, h.cacheKeys⟩
+  · exact h
+
 theorem Shard.Clean_flush (s : Shard) (h : s.Clean) : s.flush.Clean := by
   unfold Shard.flush
   split
-  · exact h
+  · split
+    · exact ⟨h.noTomb, h.fileKeys, h.cacheKeys⟩
+    · exact h
   · refine ⟨?_, ?_, by simp⟩
     · intro f hf
       rcases List.mem_append.mp hf with hf | hf
@@ -161,7 +169,7 @@ theorem step_Clean (st : State) (op : Op) (hop : op.clean = true) (h : st.src.Cl
     · split <;> exact h
   | importA ids =>
     simp only [step]; split <;> exact h
-  | dump => exact h
+  | dump => exact Shard.Clean_noteRead _ h
   | bigcase n imp => simp only [step]; split <;> exact h
 
 theorem seriesAlong_clean (ops : List Op) (st : State) (hops : ∀ op ∈ ops, op.clean = true)
